@@ -345,7 +345,7 @@ class Imm12Relocation(Relocation):
 
     def calc(self, sym_value, reloc_value):
         offset = sym_value - reloc_value - 4
-        assert offset in range(-2096, 2095), str(offset)
+        assert offset in range(-2048, 2048), str(offset)
         # TODO: this wrap_negative is somewhat weird
         return wrap_negative(offset, 12)
 
